@@ -337,6 +337,9 @@ type connectErrJSON struct {
 
 func (o *Outcome) fromConnectErr(e *connectErrJSON) {
 	code, ok := codeFromName(e.Code)
+	if n, err := strconv.ParseUint(strings.TrimPrefix(e.Code, "code_"), 10, 32); !ok && strings.HasPrefix(e.Code, "code_") && err == nil {
+		code, ok = int(n), true // connect-go's rendering of codes without a name
+	}
 	if !ok {
 		o.bad("connect error code %q is not a defined code name", e.Code)
 		code = 2
@@ -480,6 +483,12 @@ func parseConnectUnary(c *ClientReq, o *Outcome, body []byte, httpTrailers http.
 	var e connectErrJSON
 	if err := json.Unmarshal(data, &e); err != nil {
 		o.bad("connect unary error body is not error JSON: %v", err)
+		httpErrorOutcome(o)
+		return
+	}
+	if _, ok := codeFromName(e.Code); !ok && !strings.HasPrefix(e.Code, "code_") {
+		// not a Connect error object: a client falls back to the HTTP status (Connect spec)
+		o.bad("connect unary error body has no valid code (%q)", e.Code)
 		httpErrorOutcome(o)
 		return
 	}
@@ -771,6 +780,12 @@ func parseREST(c *ClientReq, o *Outcome, body []byte, httpTrailers http.Header) 
 			return
 		}
 		st.Code, st.Message = int32(lenient.Code), lenient.Message
+	}
+	if st.GetCode() == 0 {
+		// not a google.rpc.Status error: only the HTTP status speaks
+		o.bad("REST error body carries no error code")
+		httpErrorOutcome(o)
+		return
 	}
 	o.fromStatusProto(&st)
 	if want, ok := httpFromCode[o.Code]; ok && want != o.Status {
